@@ -441,8 +441,11 @@ class Scenario:
         self.hh = CUM[m - 1] + 24 * (dayh or 0) + hour_h
         self.hp = (CUM[m - 1] - 24 + 10) % 8760
 
+        self.hours = (hour_c, hour_h)
+
     def name(self):
-        return 'm%d_c%s_h%s_%s_%s' % (self.m, self.dayc, self.dayh, self.base, self.prev)
+        tag = '' if self.hours == (15, 4) else '_at%d_%d' % self.hours
+        return 'm%d_c%s_h%s_%s_%s%s' % (self.m, self.dayc, self.dayh, self.base, self.prev, tag)
 
 
 def l2_setup():
@@ -619,6 +622,13 @@ def scenarios(tier, seed):
                     if dayc is None and dayh is None:
                         continue
                     scs.append(Scenario(m, dayc, dayh, base, prev))
+                    if base == 'zero' and prev == 'none':
+                        # peak in the last / first hour of its day (day index arithmetic at the day boundaries)
+                        hv = [(23, 23), (0, 0)] if tier == 'quick' else [(23, 23), (0, 0), (23, 0), (0, 23), (12, 12)]
+                        for hc, hh in hv:
+                            if dayc is not None and dayh is not None and dayc == dayh and hc == hh:
+                                hh = (hh + 5) % 24      # two symbolic loads cannot share one hour
+                            scs.append(Scenario(m, dayc, dayh, base, prev, hour_c=hc, hour_h=hh))
     return scs
 
 
